@@ -23,3 +23,46 @@ def outcome_class(c, obs):
 
 def classify(c, obs, why):
     return None
+
+
+def run(res, a):
+    import json, os, sys
+    from .. import core
+    res.rule = RULE + ("; additionally (implementation side only): an unverified connection and a verified one that reach the accessory "
+                       "under the SAME remote ip:port (one local ip:port, destinations 127.0.0.1 and 127.0.0.2), the unverified one first")
+    res.assumptions = ASSUMPTIONS + ["connections are independent objects in the model (no addresses); the shared-address runs are judged by the oracle only"]
+    core.build_everything(res, ID, extra_files=EXTRA_FILES)
+    res.trusted += TRUSTED
+    mod = sys.modules[__name__]
+    rng = core.rng_for(ID, res.seed)
+    if a.replay:
+        rep = json.load(open(a.replay))
+        if " NS:" in rep["case"]:
+            cases = [{"id": "replay", "line": rep["case"], "kind": "shared-addr", "meta": {"adv": ["a"]}}]
+        else:
+            core.run_correspondence(res, FAMILY, [{"id": "replay", "line": rep["case"], "kind": "replay", "meta": rep.get("meta") or {}}], mod)
+            return
+    else:
+        core.run_correspondence(res, FAMILY, core.load_corpus(FAMILY) + gen(rng, a.tier), mod)
+        cases = sp.gen_c01_shared_addr(rng, a.tier)
+    obs = core.shard_run(os.path.join(core.BUILD, "hcdrv"), FAMILY, ["%s %s" % (c["id"], c["line"]) for c in cases])
+    bad = unsupported = 0
+    for c in cases:
+        o = obs.get(c["id"], "NO-OUTPUT")
+        res.cases += 1
+        res.count("kind:shared-addr")
+        if "NS=unsupported" in o:
+            unsupported += 1
+            continue
+        h = core.sha(c["line"])
+        res.distinct.add(h)
+        res.nontrivial.add(h)
+        why = oracle(c, o)
+        if why:
+            bad += 1
+            if bad == 1:
+                res.violations.append(("shared-addr", {"property": ID, "family": FAMILY, "seed": res.seed, "case": c["line"], "implementation_observed": o[:400],
+                                                       "required": why + " (this connection and a verified one have the same remote ip:port)", "failing_input_found": True,
+                                                       "replay": "python3 tools/check.py C01 --replay <this file>"}))
+    res.obligations.append(("implementation-side runs: unverified and verified connection under one remote ip:port", bad == 0,
+                            "%d runs, %d failing, %d skipped (host cannot bind one local ip:port twice)" % (len(cases), bad, unsupported)))
